@@ -11,6 +11,9 @@ CHECKS = {
     "C01": dict(text="bounded symbolic execution of OptionParser::run_subparser (MIR regenerated from /repo) on symbolic item vectors of 11 conventional grammars, differential against a documentation-level reference semantics; every path is closed by Z3, one concrete member of every path is replayed natively",
                 note="bounds: <=3 argv words quick / <=4 thorough (each word is 1-2 items), 12 grammars (all typed values u32); std calls replaced by listed models; rendering cut at Message::render/render_help; tokenizer image assumed (wf_tokens)",
                 tech=MIRSYM + ", differential oracle", ref="DESIGN.md 4/C01"),
+    "C02": dict(text="text layer: arg::split_os_argument executed from MIR on every byte string up to the bound (all 256 byte values symbolic) and State::construct + disambiguate_short on words over a byte alphabet, both against a reference tokenization written from the documentation; token layer: relational spelling equivalence (--n v / --n=v / -n v / -n=v / -nv) and differential checks for `adjacent` arguments and aliases",
+                note="bounds: byte strings <=4 quick / <=5 thorough; construct: 1-3 words, total length <=5/6; counterexamples confirmed through the public API with a probe grammar (unprobeable names => inconclusive); Windows u16 path not compiled; one defect found and fixed (863ecb8)",
+                tech=MIRSYM + " over symbolic bytes, differential + relational", ref="DESIGN.md 4/C02"),
     "C03": dict(text="relational: run_subparser executed from MIR on a symbolic argv and on its neighbour-transposed variant in one path; Z3 shows equal class and value for every allowed transposition",
                 note="bounds: 2..3 argv words quick / ..4 thorough, 10 grammars; vectors with a dangling argument name are skipped (no decomposition into whole occurrences)",
                 tech=MIRSYM + ", relational (2-execution) query", ref="DESIGN.md 4/C03"),
@@ -27,7 +30,7 @@ CHECKS = {
                 note="bounds <=3 argv words quick / <=4 thorough; enclosing-level options right of the command name are outside the quantifier",
                 tech=MIRSYM + ", differential oracle", ref="DESIGN.md 4/C08"),
     "C09": dict(text="differential against the reference semantics on positional grammars of every strictness with `--` at every position and arbitrary ids on both sides",
-                note="bounds <=4 items quick / <=5 thorough; the construct-loop clause (pre-consumed separator, no re-tokenising) belongs to the text layer",
+                note="bounds <=4 argv words quick / <=5 thorough (token layer) plus State::construct executed from MIR on 2-3 words over {-,=,a,b} (first `--` pre-consumed, later items never re-tokenised)",
                 tech=MIRSYM + ", differential oracle", ref="DESIGN.md 4/C09"),
     "C10": dict(text="one Short/Long item is constrained to be the help (version) flag, everything else symbolic; Z3 shows the class is Stdout and the (cut) help renderer receives the path/Info of the innermost entered subcommand",
                 note="bounds 1..3 argv words quick / ..4 thorough, 14 grammars; the ambiguity exception of run_inner is outside the token layer; one known finding (see known_findings.json)",
